@@ -188,4 +188,20 @@ TARGETS = {
                  methods={"now": dict(pure=True), "update": dict(params={"time": "Instant"})}),
         ],
     ),
+    # the three breakpoint predicates that read only the context (MetricBreakpoint uses getattr: hand-modelled)
+    "BreakpointGen": dict(
+        out="Gen/BreakpointGen.v", tie="C04/GenTie.v",
+        header="From HS Require Import Base.Prelude Base.PyLib.",
+        classes=[
+            dict(file="happysimulator/core/event.py", cls="Event", fields={"event_type": "Z"}, methods={}),
+            dict(file="happysimulator/core/control/state.py", cls="BreakpointContext",
+                 fields={"current_time": "I", "events_processed": "Z", "last_event": "Event"}, methods={}),
+            dict(file="happysimulator/core/control/breakpoints.py", cls="TimeBreakpoint", fields={"time": "I", "one_shot": "B"},
+                 methods={"should_break": dict(params={"context": "BreakpointContext"}, pure=True)}),
+            dict(file="happysimulator/core/control/breakpoints.py", cls="EventCountBreakpoint", fields={"count": "Z", "one_shot": "B"},
+                 methods={"should_break": dict(params={"context": "BreakpointContext"}, pure=True)}),
+            dict(file="happysimulator/core/control/breakpoints.py", cls="EventTypeBreakpoint", fields={"event_type": "Z", "one_shot": "B"},
+                 methods={"should_break": dict(params={"context": "BreakpointContext"}, pure=True)}),
+        ],
+    ),
 }
